@@ -28,7 +28,7 @@ check('C01', E3,
 check('C02', E3,
       'complete enumeration (nested loops, no sampling) of pattern lists x streams x all splittings x windows x preceding-call variants on the real expect/expect_exact; independent re/str.find oracle at every successful return',
       'Every ordered pattern list up to length 3 from collision-rich pools with EOF/TIMEOUT at every position, every stream over {a,b} up to the bound, every splitting, is executed; genuineness, leftmost and lowest-index are judged against independent searches of the searchable text.',
-      'pattern pools / alphabet / length bounds; scripted read_nonblocking',
+      'pattern pools (incl. the empty exact string) / alphabet / length bounds; the window may change from call to call and an instance-level window may be overridden per call; scripted read_nonblocking',
       'DESIGN.md 3 C02')
 check('C03', E3,
       'explicit-state BFS to fix-point of the product (real incremental search) x (naive full re-search reference), nested DFS over environment answers, per-call changing W and pattern list',
@@ -38,34 +38,34 @@ check('C03', E3,
 check('C04', E3 + ' (part A); ' + E2 + ' (part B)',
       'complete table enumeration of marker placement x entry point x pending/received text x ending x window x mode, with follow-up calls; part B enumerates transports x peer endings under the controlled environment',
       'Every cell of the finite table is executed on the real code and judged (exact exception class, index, before/after/match fields, pending occurrence wins, EOF sticky, TIMEOUT consumes nothing).',
-      'table dimensions as listed in evidence bounds',
+      'table dimensions as listed in evidence bounds; part B also: a dead child whose terminal stays silent and open, unicode reads smaller than a character, messages built on closed objects',
       'DESIGN.md 3 C04')
 check('C20', E3,
       'complete table enumeration of pattern x all 32 flag subsets x form x mode x ignorecase x stream x splitting with a differential oracle against the native form; invalid objects at every list position',
       'Every accepted form of every pattern in the grammar is run on scripted streams and must give the same (index, before, after, span, groups) as the native form; every invalid object must raise TypeError with zero reads.',
-      'pattern grammar and stream pool are finite and listed; other regex features not covered',
+      'pattern grammar and stream pool are finite and listed; histories on one object (ignorecase toggled between uses, an invalid call made twice); other regex features not covered',
       'DESIGN.md 3 C20')
 
 check('C13', 'E1 table enumeration; real scratch file trees; real probe children for part (c)',
       'complete enumeration of three finite tables: quoted argument lists (split_command_line round trip), PATH layouts (which), and the cross product of spawn settings observed by a real probe child',
       'Every argument list / PATH layout / setting combination inside the stated bounds is executed against the real code and compared with an answer known by construction.',
-      'alphabet of 7 characters, arguments of 1..3 characters; part (c) uses real processes: no answer within a generous liveness bound is inconclusive (retried), never a verdict',
+      'alphabet of 7 characters, arguments of 1..3 characters; which() also over all ordered pairs of two-directory layouts under one unchanged PATH string; part (c) uses real processes (a quoted program word alone, every ordered pair of launch settings in one process, env without PATH, caller preexec_fn): no answer within a generous liveness bound is inconclusive (retried), a refused launch is a verdict',
       'DESIGN.md 3 C13')
 check('C18', 'E1 explicit-state BFS over the real ANSI object',
       'explicit-state BFS over (grid, cursor, saved cursor, scroll region, FSM state, parameter stack, decoder state) with a complete token alphabet; exhaustive cut-point enumeration for chunk independence',
       'All reachable terminal states on tiny screens (fix-point) and to a depth bound on larger ones satisfy totality/shape/cursor/no-residue; every token pair (and BFS-tree path) is re-fed under every cut set as str, latin-1 bytes and utf-8 bytes.',
-      'token alphabet finite (every known final x parameter classes, unknown finals, truncated prefixes); screens <= 3x4; no random testing on large screens',
+      'token alphabet finite (every known final x parameter classes, unknown finals, truncated prefixes); screens <= 3x4; byte input also malformed for the encoding and in shift_jis/gbk/utf-16, pieces fed through write() and process_list(); two live terminals fed alternately; no random testing on large screens',
       'DESIGN.md 3 C18')
 check('C19', 'E1 explicit-state BFS over the real screen object x reference grid',
       'explicit-state BFS of the product (real screen, reference grid) with whole-state comparison (frame condition) after every operation and all read accessors compared in every new state',
       'All operation sequences to the fix-point on 1x1..2x2 and to a depth bound (with state deduplication) on 2x3..4x5, arguments from {below, 1, interior, max, above}, swapped corners, str/bytes.',
-      'reference grid written from the docstrings; doc-silent behaviours are pinned and listed in the evidence assumptions',
+      'reference grid written from the docstrings; doc-silent behaviours are pinned and listed in the evidence assumptions; row sharing is part of the state, all accessors are read before every operation, utf-8 screens with multi-byte bytes characters, an undecodable character under strict errors must be rejected without changing anything',
       'DESIGN.md 3 C19')
 
 check('C06', E2,
       'stateless exhaustive schedule exploration (DFS over every placement of the peer\'s actions between the reader\'s intercepted system calls; no preemption bound for scripts <= 4 actions) on real pty/pipe/socket objects with a simulated process table',
       'For every transport and configuration, every interleaving of write/write/hang-up/exit with the reader\'s poll/read/waitpid/timed-wait/queue/reader-thread steps is executed; the returned bytes must equal the written bytes, EOF only after all of them, chunk <= size, socket timeout restored.',
-      'scheduling granularity = intercepted calls; pty data is served from a harness-side buffer (raw mode) because kernel pty delivery is asynchronous and not deterministic; process table simulated (validated against the kernel); large outputs only with deviation bound 1',
+      'scheduling granularity = intercepted calls; pty data is served from a harness-side buffer (raw mode) because kernel pty delivery is asynchronous and not deterministic; process table simulated (validated against the kernel); readers: read_nonblocking loop, polling loop (timeout 0), expect(EOF), readlines(); unicode mode with reads smaller than a character; short reads; large outputs only with deviation bound 1',
       'DESIGN.md 3 C06')
 
 check('C05', E2,
@@ -77,17 +77,17 @@ check('C05', E2,
 check('C07', E2,
       'complete enumeration of byte streams x every set of <= 3 cut points x encodings x error policies x maxread x transports, each piece delivered at its own virtual instant; oracle = codecs.decode of the whole stream',
       'Every splitting (up to 3 cuts at every byte offset) of every stream in the pool is delivered through every real transport class and must reach the caller and logfile_read as the whole-stream decoding, with the right string type.',
-      'stream pool finite (1-4 byte UTF-8 sequences, UTF-16 with BOM and surrogate pair, latin-1, invalid bytes under replace/ignore); sync path (async decode path covered in C14)',
+      'stream pool finite (1-4 byte UTF-8 sequences, UTF-16 with BOM and surrogate pair, latin-1, invalid bytes under replace/ignore); blocking and awaited paths; a call aborted by KeyboardInterrupt out of the blocked wait after every piece and retried; a second object while a decoder holds a partial character',
       'DESIGN.md 3 C07')
 check('C08', E2,
       'complete enumeration of send-family call sequences (length <= 3) x payload pool x mode x transport with a byte-exact raw-mode peer; every control-character name',
       'Every sequence is executed on the real transport; the peer must receive exactly the incremental encoding of the arguments in call order (+ one line separator per sendline, one byte per control call); send returns the bytes written.',
-      'raw-mode pty slave / pipe / socketpair peer owned by the harness; payloads above the kernel buffer drained by a free-running thread (total compared only)',
+      'raw-mode pty slave / pipe / socketpair peer owned by the harness; also: linesep assigned between sendlines, short OS writes as an environment answer (deviation bound 2), a payload-length sweep over chunk-size boundaries; payloads above the kernel buffer drained by a free-running thread (one verdict, byte counts kept apart as timing detail)',
       'DESIGN.md 3 C08')
 check('C11', E2,
       'complete enumeration of read/send operation sequences (length <= 4) x the 7 log subsets x mode x transport with recording log objects (every write/flush, type, global order)',
       'Every sequence is executed; logfile_read must equal the text delivered (incremental decoding of what was read, characters cut by read boundaries), logfile_send the coerced arguments incl. control characters, logfile their merge in operation order, every write flushed, string type = API type.',
-      'each read operation consumes exactly the chunk delivered for it (unique token per chunk); interact() logging is judged in C15',
+      'each read operation consumes exactly the chunk delivered for it (unique token per chunk); awaited reads in the menu; interact() logging driven through the C15 harness, also with a child that takes one byte per write',
       'DESIGN.md 3 C11')
 
 check('C09', E2 + ' + ProcSim (mc/conform_procsim.py)',
@@ -98,19 +98,19 @@ check('C09', E2 + ' + ProcSim (mc/conform_procsim.py)',
 check('C10', E2 + ' + ProcSim',
       'exhaustive enumeration of lifecycle operation sequences (length <= 4) x child dispositions x transports with nested DFS over signal-latency and mid-sequence-exit placements; invariants after every operation; decoy file on the released descriptor number',
       'Every sequence over 14 pty operations (7 for fd/socket) from every disposition is executed on real descriptors; liveness truthfulness, reaping after close/terminate(force), idempotent close, descriptor release, no stale child_fd, I/O after close fails without touching the new owner of the descriptor number, no foreign exception classes.',
-      'process table simulated (validated, see C09); fatal signals act immediately or after 0.05 s (< delayafterterminate); wait() on a child that never exits is skipped as documented blocking',
+      'process table simulated (validated, see C09); fatal signals act immediately, after 0.05 s or after 0.095 s (< delayafterterminate); grace periods set to zero; kill() answering ESRCH for the just-died child; a log file closed before the spawn; wait() on a child that never exits is skipped as documented blocking',
       'DESIGN.md 3 C10')
 
 check('C12', E2,
       'complete enumeration of scripted reactive dialogues (<= 4 steps + exit) x 9 event tables x mode x withexitstatus on the virtual clock, real pexpect.run() over the _spawnpty seam',
       'Every dialogue (emit with 0/1/2 occurrences, occurrence split across chunks, wait for an input line, pause beyond the timeout, exit code) is played by a harness-owned peer that logs what it received; the returned output must be exactly the prefix of what the child wrote up to the stop point, each occurrence answered once in stream order with list priority, exit status true.',
-      'event patterns are atomic tokens; with a TIMEOUT key only output and pattern responses are judged; process table simulated',
+      'event patterns are atomic tokens; with a TIMEOUT key only output and pattern responses are judged; also: a child that detaches from its terminal and exits later, searchwindowsize through run() kwargs, timeout exactly 0, a duplicated pattern in an event list, a run after one whose output ended inside a character; closing the master sends SIGHUP to the simulated child; process table simulated',
       'DESIGN.md 3 C12')
 
 check('C16', E2 + ' + scripted REPL model bound to real bash',
       'exhaustive enumeration of command sequences (length <= 3) with a deviation-bounded (<= 2) DFS over chunk-cut placements in the REPL output (incl. inside the prompt string); conformance replay of every sequence <= 2 on real bash',
       'The real REPLWrapper drives a harness spawn whose peer is a line-oriented REPL model (prompt, continuation prompt, SIGINT cancels); each run_command must return exactly that command\'s modelled output, ValueError for incomplete input, later commands still attributed correctly.',
-      'REPL model (no echo) bound to reality by real-bash replays (TIMEOUT = inconclusive); cut deviation bound 2; awaited form covered in C14',
+      'REPL model bound to reality by real-bash and real-python replays (TIMEOUT = inconclusive); cut deviation bound 2 (middle of the output, output/prompt boundary, middle / first / last character of the prompt); blocking and awaited forms; a wrapper on an existing spawn whose terminal still echoes (echo produced by the model at write time)',
       'DESIGN.md 3 C16')
 check('C17', E2 + ' + fake ssh server state machine',
       'complete enumeration of server dialogues (<= 4 events over 12 event kinds) x shell flavours x login option combinations x mode, on the virtual clock, with a transcript oracle',
@@ -121,13 +121,13 @@ check('C17', E2 + ' + fake ssh server state machine',
 check('C15', E2 + ' with two harness-owned ptys',
       'enumeration of keystroke streams x splittings x merge orders with child output chunks x configurations, with a deviation-bounded DFS over the placement of the peer actions among interact()\'s system calls',
       'interact() runs between an inner pty (child) and an outer pty (the user\'s terminal) both held by the harness: the screen must equal pending buffer + child output (through output_filter), the child must receive the keystrokes (through input_filter) up to but excluding the first escape character, interact returns on escape and on child exit, termios restored.',
-      'keystrokes / child output served from harness-side buffers (pty delivery is asynchronous); schedule deviation bound 1 (quick) / 2 (thorough); keystroke alphabet of 5 bytes, <= 4 keys',
+      'keystrokes / child output served from harness-side buffers (pty delivery is asynchronous); schedule deviation bound 1 (quick) / 2 (thorough); keystroke alphabet of 5 bytes, <= 4 keys; filters that empty, lengthen, shorten a read or produce the escape byte; a child that takes one byte per write; bursts of exactly the read size; a second interact() after the program changed the terminal settings',
       'DESIGN.md 3 C15')
 
 check('C14', E2 + ' + controlled real asyncio loop (mc/aio.py)',
       'deviation-bounded exhaustive schedule exploration of call histories mixing awaited and blocking calls on one object: every placement of each chunk and of EOF among the loop\'s select() calls, the transport\'s reads and the blocking path\'s system calls; reference = naive full re-search (C03) on the chunks as the object received them',
       'The real SelectorEventLoop and _UnixReadPipeTransport run on the real pty descriptor with a controlled selector and a virtual loop clock; every awaited/blocking call must give the index/exception, before, after, match, buffer that the reference gives for the text it had received, TIMEOUT not before T and by T+0.25, up to the first EOF.',
-      'deviation bound 1 (quick) / 2 (thorough); streams over {a,b,e-acute} up to 4 characters with byte-level cuts; histories of <= 3 calls from a fixed menu',
+      'deviation bound 1 (quick; 2 for the search-window histories) / 2 (thorough); streams over {a,b,e-acute} up to 4 characters with byte-level cuts; histories of <= 3 calls from a fixed menu incl. polls, zero-width patterns and search windows (under a window the reference is taken over every gathering of consecutive chunks)',
       'DESIGN.md 3 C14')
 
 NOT_BUILT = {}
